@@ -7,6 +7,9 @@ package main
 import (
 	"reflect"
 	"strconv"
+	"sync"
+	"sync/atomic"
+	"time"
 	"unsafe"
 
 	"github.com/whatap/golib/util/queue"
@@ -38,4 +41,38 @@ func setDoubleCallbacks(im *impl) {
 	im.cbOK = setField(im.d, "failed2", mk("2:F")) && im.cbOK
 	im.cbOK = setField(im.d, "overflowed1", mk("1:O")) && im.cbOK
 	im.cbOK = setField(im.d, "overflowed2", mk("2:O")) && im.cbOK
+}
+
+// condMutex returns the mutex of the queue's condition variable (unexported field of type *sync.Cond).
+func condMutex(obj interface{}) *sync.Mutex {
+	e := reflect.ValueOf(obj).Elem()
+	for i := 0; i < e.NumField(); i++ {
+		f := e.Field(i)
+		if f.Type() == reflect.TypeOf((*sync.Cond)(nil)) {
+			c := *(**sync.Cond)(unsafe.Pointer(f.UnsafeAddr()))
+			if c != nil {
+				if mu, ok := c.L.(*sync.Mutex); ok {
+					return mu
+				}
+			}
+		}
+	}
+	return nil
+}
+
+func mutexStarving(mu *sync.Mutex) bool {
+	// sync.Mutex{state int32; sema uint32}; bit 2 of state = starvation mode
+	return atomic.LoadInt32((*int32)(unsafe.Pointer(mu)))&4 != 0
+}
+
+// fifoRelease releases a mutex the caller holds such that the goroutines parked on it — and everyone who
+// queues up while waiters that have waited > 1 ms remain — are served strictly in arrival order (Go's
+// starvation mode: direct hand-off, no barging).  Entered by barging once ourselves.
+func fifoRelease(mu *sync.Mutex) {
+	mu.Unlock()
+	mu.Lock()
+	for i := 0; i < 100 && !mutexStarving(mu); i++ {
+		time.Sleep(50 * time.Microsecond)
+	}
+	mu.Unlock()
 }
